@@ -98,6 +98,12 @@ CHECKS = {
             "valid and ill-kinded values, every sequence length 0..max+1 as list and tuple, and str/bytes look-alikes; verdict, bound values, set-field record and output form are "
             "compared with the reference model whose names are computed from the user's configuration.",
             "Reference naming rules transcribed from docs/using/dataclasses.md and the field() docstring; Python-name-next-to-rename cells are UNSPEC."),
+    'C16': ("exhaustive enumeration of the dataclass option cube x class-body variants x field flags x all instance pairs on real generated classes; mirror standard-library dataclass + algebraic laws; bounded operation histories",
+            "1 536 pane classes (eq x order x frozen x unsafe_hash x {plain, own __eq__, own __hash__, both} x 24 field-flag settings) are each paired with a mirror "
+            "dataclasses.dataclass; class-creation refusal, ==, !=, the four ordering operators, hashability and hash-equality pattern and repr are compared on all 81 grid pairs; "
+            "reflexive/symmetric/transitive/trichotomy laws are checked on the grid; frozen and non-frozen attribute protocols; generic parameterisations compare equal; all "
+            "histories of depth <= 3 over setattr/copy/deepcopy/replace(good)/replace(bad) from five start states are checked against a (values, set-record, sharing) model.",
+            "The standard library's dataclasses module is the reference for the rule tables; eq=False+order=True is UNSPEC."),
     'C19': ("exhaustive enumeration of value pool x sink kind x source kind x the full formatting-option cube on the real IO functions under a non-UTF-8 locale, with pane.io.open recorded; "
             "bounded multi-document write histories",
             "Every pooled typed value is written and read back through every sink/source kind pairing and every one of the 8 JSON and 1 152 YAML option settings (quick: full cube on "
